@@ -395,7 +395,7 @@ def run_program(case, mode="do"):
             rec.dead = True
             n = len(rec.log)
             raised = "other:Runaway"
-        gc.collect()
+        gc.collect(1)      # objects created during this run are young (gc was disabled); older ones need no traversal
     finally:
         if gc_was:
             gc.enable()
@@ -422,6 +422,8 @@ class _Gen:
         self.p_ops = {"mixed": 0.15, "ops": 0.45, "faults": 0.08, "time": 0.0, "plain": 0.0}[profile]
         self.p_fault = {"mixed": 0.08, "ops": 0.05, "faults": 0.22, "time": 0.0, "plain": 0.0}[profile]
         self.always = False
+        # "lagging" programs: many yields shorter than the tock, then longer non-multiples (cumulative due tymes matter)
+        self.lag = profile in ("time", "plain", "mixed") and rng.random() < 0.4
 
     def nid(self):
         self.next_id += 1
@@ -429,6 +431,8 @@ class _Gen:
 
     def ytock(self):
         r, t = self.rng, self.tock
+        if self.lag:
+            return r.choice([t / 2, t / 2, t / 4, 0.3 * t, 0.75 * t, 2.5 * t, 1.75 * t, 3.25 * t, 0.0, t])
         k = r.random()
         if k < 0.35:
             return 0.0
@@ -450,7 +454,7 @@ class _Gen:
         elif k < self.p_fault / 2 + 0.06:
             act = ("done", self.retv())
         steps = []
-        n = r.choice([0, 1, 2, 3, 3, 4, 5, 6])
+        n = r.choice([0, 1, 2, 3, 3, 4, 5, 6]) if not self.lag else r.choice([3, 5, 6, 7, 8])
         for j in range(n):
             ops = []
             if allow_ops and r.random() < self.p_ops:
@@ -465,8 +469,14 @@ class _Gen:
                         if in_pool is False and r.random() < 0.2:
                             cand.append(i)
                         if cand:
-                            ids = [r.choice(cand) for _ in range(r.choice([1, 1, 2, 3]))]
-                            ops.append(("remove", ids))
+                            if r.random() < 0.35:
+                                # both sides of the remover at once: every other member, or the two neighbours
+                                oth = [x for x in cand if x != i]
+                                ids = oth if (r.random() < 0.5 or len(oth) < 3) else r.sample(oth, 2)
+                            else:
+                                ids = [r.choice(cand) for _ in range(r.choice([1, 1, 2, 3]))]
+                            if ids:
+                                ops.append(("remove", ids))
             k = r.random()
             if k < self.p_fault:
                 out = "raise" if r.random() < 0.8 else "kbint"
@@ -692,7 +702,7 @@ class SchedCheck(core.Check):
     pkg = "Sched"
     exe = "drv"
     quick_n = 700
-    thorough_n = 30000
+    thorough_n = 40000
     profiles = ("mixed", "ops", "faults", "time")
     trusted_base = ["correspondence harness/areas/sched.py: compiled model driver vs hio.base.doing run in-process on the same program (trace, flags, done, tyme, raised, doers compared as strings; tymes as IEEE-754 bit patterns)",
                     "adapter: harness-side subclasses of Doer/DoDoer/Doist that log the lifecycle methods, remove() and exit() calls; five Python doer shapes built from one script",
@@ -707,6 +717,10 @@ class SchedCheck(core.Check):
     def generate(self, rng, n, tier):
         for _ in range(n):
             yield gen_case(rng, rng.choice(self.profiles))
+        if tier == "quick":      # a seeded slice of the exhaustive single-fault scope (all of it runs in thorough)
+            ex = exhaustive_scope()
+            for c in rng.sample(ex, min(len(ex), max(20, n // 4))):
+                yield c
 
     def request(self, case):
         return request(case)
@@ -804,6 +818,13 @@ CORPUS = [
     ("run", 0.5, 0.0, 4.0, [], [("group", 7, 0.0, True, [_lf(1, [_y()])], []), ("group", 8, 1.0, False, [_lf(2, [_y(0.5), _y(None), _y(1.5)], "genrecur")], [])]),
     # enter fails in do(): earlier doers closed in reverse
     ("run", 1.0, 0.0, None, [], [_lf(1, [_y()]), ("group", 9, 0.0, False, [_lf(2, [_y()]), _lf(3, [], "plain", "fail")], []), _lf(4, [_y()])]),
+    # F02 (remove) inside a DoDoer: a child removes the members on both sides of itself
+    ("run", 1.0, 0.0, 6.0, [], [_lf(1, [_y()] * 5), ("group", 9, 0.0, True, [_lf(2, [_y()] * 5, "plain"), _lf(3, [_y(), ([("remove", [2, 4, 5])], ("yield", 0.0)), _y()]), _lf(4, [_y()] * 5, "bound"), _lf(5, [_y(2.0)] * 3)], [])]),
+    # the last live doer extends with a doer that is done at enter, then returns: the run ends right after that cycle
+    ("run", 0.5, 0.0, None, [_lf(5, [], "doify", ("done", True)), _lf(6, [], "plain", ("done", True))], [_lf(1, [_y(), ([("extend", [0, 1])], ("ret", True))])]),
+    ("run", 0.5, 1.0, 5.0, [], [("group", 9, 0.0, False, [_lf(1, [_y(), ([("extend", [0])], ("ret", None))])], [_lf(5, [], "genrecur", ("done", None))])]),
+    # a doer that lags behind (yields shorter than the tock) and then yields a long non-multiple: due tymes are cumulative
+    ("run", 1.0, 0.0, None, [], [_lf(1, [_y(0.5)] * 4 + [_y(2.5), _y(0.5), _y(2.5)], "plain"), _lf(2, [_y(0.25)] * 6 + [_y(3.25), _y(None), _y(1.75)], "genrecur")]),
     # done at enter in all shapes, nothing left: one cycle
     ("run", 0.1, 0.3, None, [], [_lf(1, [], "plain", ("done", True)), _lf(2, [], "genrecur", ("done", None)), _lf(3, [], "doize", ("done", False)), _lf(4, [], "bound", ("done", True))]),
 ]
